@@ -80,4 +80,20 @@ theorem C04_source_semantics_mono (c : Ctx) (k k' : Nat) (hk : k ≤ k') (name :
   · cases h
   · cases h
 
+/-- the two spec routes agree whatever evaluation budget each of them happens to run with: whenever both finish, they
+return the same value and the same events (injection theorem + determinism of the source semantics) -/
+theorem C04_spec_route_any_fuel (look : LookKind → String → Option Val) (fns : List Fn) (k k' : Nat)
+    (name : String) (args : List Val) (r r' : Val × List Event)
+    (h : runKernel k ⟨injProg (C06.cfgOf look) fns, noLook⟩ name args = .ok r)
+    (h' : runKernel k' ⟨fns, look⟩ name args = .ok r') : r = r' := by
+  rw [C04_spec_route] at h
+  exact C04_source_semantics_deterministic _ k k' name args r r' h h'
+
+/-- compiling an already specialised kernel with the spec again is one more route, and it changes nothing -/
+theorem C04_spec_route_recompile (look : LookKind → String → Option Val) (fns : List Fn) (fuel : Nat)
+    (name : String) (args : List Val) :
+    runKernel fuel ⟨injProg (C06.cfgOf look) (injProg (C06.cfgOf look) fns), noLook⟩ name args =
+      runKernel fuel ⟨fns, look⟩ name args := by
+  rw [C06.C06_idempotent, C04_spec_route]
+
 end Shuttle.Props.C04
